@@ -43,15 +43,25 @@ def _read(wire, cuts, method='GET', keep_alive=True, record=None):
 
 
 # ---------------------------------------------------------------- by length
-def _by_length(body, cl, cuts, lf_only, keep_alive_hdr):
+_ODD = [None, 0x85, 0x0b, 0x0c, 0x1c, 0x1d, 0x1e, 0x0d, 0xa0]
+
+
+def _by_length(body, cl, cuts, lf_only, keep_alive_hdr, odd_i=0):
     body = fixlen(body, 7)
     eol = b'\n' if lf_only else b'\r\n'
-    head = b'HTTP/1.1 200 OK' + eol + b'Content-Length: ' + str(cl).encode() + eol
+    odd = pick(_ODD, odd_i)
+    head = b'HTTP/1.1 200 OK' + eol
+    if odd is not None:
+        # one field whose value contains a byte that str.splitlines() treats as a line boundary: still ONE field (lines end in LF only)
+        head = head + b'X-Odd: a' + bytes([odd]) + b'Content-Length: 9' + eol
+    head = head + b'Content-Length: ' + str(cl).encode() + eol
     if keep_alive_hdr:
         head = head + b'Connection: keep-alive' + eol + b'X-Fold: a' + eol + b' \t' + eol     # white-space-only continuation line
     head = head + eol
     rec = []
     kind, status, got, conn = _read(head + body, cuts, record=rec)
+    if odd == 0x0d and kind == 'error':
+        return True                                  # RFC 7230 3.5: a bare CR may be rejected (or read as SP)
     if len(body) < cl:
         hit('short')
         return kind == 'error'                       # cut short by the peer: an error, never a shorter success
@@ -102,6 +112,19 @@ def _chunked(c1, c2, nchunks, lf_only, upper, lead0, ext, trailer, trunc, cuts):
         return trunc >= last_chunk_line_end
     hit('complete')
     return conn.pos == full and not conn.closed()
+
+
+_TE = [b'chunked', b'Chunked', b'CHUNKED', b'  chunked  ', b'chunKed']
+
+
+def _te_spelling(te_i, body, cuts):
+    """Transfer-coding names are case-insensitive (RFC 7230 section 4): every spelling of `chunked` selects chunked framing."""
+    body = fixlen(body, 2)
+    wire = b'HTTP/1.1 200 OK\r\nTransfer-Encoding: ' + pick(_TE, te_i) + b'\r\nContent-Length: 1\r\n\r\n' + \
+        (('%x' % len(body)).encode() + b'\r\n' + body + b'\r\n' if body else b'') + b'0\r\n\r\n'
+    kind, status, got, conn = _read(wire, cuts)
+    hit('te')
+    return kind == 'ok' and got == body and conn.pos == len(wire)
 
 
 # ---------------------------------------------------------------- until close
@@ -318,12 +341,14 @@ def _content_coding(kind_i, payload, framing, cuts):
 
 _CUTS = 'cuts: List[int]'
 HARNESSES = [
-    H('by_length', '_by_length', 'body: bytes, cl: int, ' + _CUTS + ', lf_only: bool, keep_alive_hdr: bool',
-      pre={'quick': ['len(body) <= 3 and 0 <= cl <= 4 and len(cuts) <= 2'], 'thorough': ['len(body) <= 6 and 0 <= cl <= 7 and len(cuts) <= 4']},
-      parts={'quick': [{'tag': 'cl%d' % c, 'fix': {'cl': str(c), 'lf_only': 'False', 'keep_alive_hdr': 'False'}} for c in range(5)]
-             + [{'tag': 'lf', 'fix': {'lf_only': 'True', 'keep_alive_hdr': 'True', 'cl': '2'}}],
+    H('by_length', '_by_length', 'body: bytes, cl: int, ' + _CUTS + ', lf_only: bool, keep_alive_hdr: bool, odd_i: int',
+      pre={'quick': ['len(body) <= 3 and 0 <= cl <= 4 and len(cuts) <= 2 and 0 <= odd_i < %d' % len(_ODD)],
+           'thorough': ['len(body) <= 6 and 0 <= cl <= 7 and len(cuts) <= 4 and 0 <= odd_i < %d' % len(_ODD)]},
+      parts={'quick': [{'tag': 'cl%d' % c, 'fix': {'cl': str(c), 'lf_only': 'False', 'keep_alive_hdr': 'False', 'odd_i': '0'}} for c in range(5)]
+             + [{'tag': 'lf', 'fix': {'lf_only': 'True', 'keep_alive_hdr': 'True', 'cl': '2', 'odd_i': '0'}},
+                {'tag': 'oddbyte', 'fix': {'lf_only': 'False', 'keep_alive_hdr': 'False', 'cl': '2'}, 'pre': ['len(body) <= 3 and len(cuts) <= 1']}],
              'thorough': [{'tag': 'cl%d' % c, 'fix': {'cl': str(c)}} for c in range(8)]},
-      timeout={'quick': 250, 'thorough': 1800}, samples=[(b'abcd', 3, [2, 5], False, False), (b'ab', 3, [], False, True), (b'abc', 3, [1, 1], True, False)],
+      timeout={'quick': 250, 'thorough': 1800}, samples=[(b'abcd', 3, [2, 5], False, False, 0), (b'ab', 3, [], False, True, 0), (b'abc', 3, [1, 1], True, False, 0), (b'abc', 2, [], False, False, 3)],
       need=['short', 'overrun', 'exact'],
       funcs=['wpull/protocol/http/stream.py:Stream.read_response', 'wpull/protocol/http/stream.py:Stream.read_body',
              'wpull/protocol/http/stream.py:Stream._read_body_by_length', 'wpull/protocol/http/request.py:Response.parse'],
@@ -347,6 +372,10 @@ HARNESSES = [
       doc='chunked framing (0-2 chunks of symbolic bytes, hex sizes upper/lower/zero-padded, chunk extension, trailer, CRLF or LF) truncated '
           'at EVERY point and read in symbolic cuts: body == concatenated chunk data, reported bytes == wire bytes, a stream cut before the '
           'last-chunk line is complete is an error - never a shorter success'),
+    H('te_spelling', '_te_spelling', 'te_i: int, body: bytes, ' + _CUTS, pre=['0 <= te_i < %d and len(body) <= 2 and len(cuts) <= 1' % len(_TE)],
+      timeout={'quick': 200, 'thorough': 400}, samples=[(0, b'ab', []), (1, b'a', [1])], need=['te'],
+      funcs=['wpull/protocol/http/stream.py:Stream.get_read_strategy'],
+      doc='every letter-case / padding spelling of "Transfer-Encoding: chunked" selects chunked framing (and wins over Content-Length)'),
     H('until_close', '_until_close', 'body: bytes, ' + _CUTS + ', http10: bool',
       pre={'quick': ['len(body) <= 4 and len(cuts) <= 3'], 'thorough': ['len(body) <= 6 and len(cuts) <= 5']},
       timeout={'quick': 250, 'thorough': 1500}, samples=[(b'abc', [1, 1], False)], need=['read'],
